@@ -282,6 +282,10 @@ func (db *DB) GetTable(txn ReadTxn, name string) TableMeta {
 // deleted objects that are no longer necessary for Changes().
 func (db *DB) Start() error {
 	db.gcTrigger = make(chan struct{}, 1)
+	// Collection requests made before Start() (mark/close on a database that was
+	// already in use) were dropped as there was no channel yet. Run one collection
+	// at startup to catch up with them.
+	db.gcTrigger <- struct{}{}
 	db.gcExited = make(chan struct{})
 	db.ctx, db.cancel = context.WithCancel(context.Background())
 	go graveyardWorker(db, db.ctx, db.gcRateLimitInterval)
